@@ -165,12 +165,17 @@ inductive Reply where
   | notJson
   | panic (site : String)
   | deadlock
+  /-- the command has not returned: it is evaluating the expression handed to `inject` -/
+  | evaluating
   deriving DecidableEq, Repr
 
 inductive Res (α : Type) where
   | ok (a : α) (s : DbgState)
   | panic (site : String) (s : DbgState)
   | deadlock (s : DbgState)
+  /-- the command is (still) evaluating an expression in state `s` — it never returns if the
+      expression diverges; `s` is what every other command meanwhile sees -/
+  | evaluating (s : DbgState)
 
 def M (α : Type) := DbgState → Res α
 
@@ -181,6 +186,7 @@ instance : Monad M where
     | .ok a s' => f a s'
     | .panic p s' => .panic p s'
     | .deadlock s' => .deadlock s'
+    | .evaluating s' => .evaluating s'
 
 def getS : M DbgState := fun s => .ok s s
 def modS (f : DbgState → DbgState) : M Unit := fun s => .ok () (f s)
@@ -212,20 +218,32 @@ def locked {α : Type} (body : M α) : M α := fun s =>
     | .ok a s' => .ok a { s' with lock := s'.lock - 1 }
     | .panic p s' => .panic p { s' with lock := s'.lock - 1 }
     | .deadlock s' => .deadlock s'
+    | .evaluating s' => .evaluating s'   -- still inside: the deferred unlock has not run
 
 /-- which of the guards added by a44f74f are present -/
 structure Guards where
   lockstateNil : Bool   -- `if ed.mutexLog != nil` / `if ed.threadpool != nil` in LockState
   stepOutLen : Bool     -- `len(stack) > 0` before `stack[:len(stack)-1]` in Continue
   errDataConv : Bool    -- RuntimeErrorWithDetail.ToJSONObject converts Data into a JSON-marshalable object
+  injectOutside : Bool  -- InjectValue evaluates the expression WITHOUT holding ed.lock
   deriving DecidableEq, Repr
 
-def repaired : Guards := { lockstateNil := true, stepOutLen := true, errDataConv := true }
+def repaired : Guards := { lockstateNil := true, stepOutLen := true, errDataConv := true, injectOutside := true }
+
+/-- what parsing, validating and evaluating the expression handed to `inject` does -/
+inductive EvalOutcome where
+  | ok | error
+  /-- it calls a function declared by the debugged program: the function body reports its states
+      to this debugger (VisitState takes `ed.lock.RLock`), then finishes with or without error -/
+  | visits (ok : Bool)
+  /-- it does not return (endless loop, long sleep, stopped at a break point as thread 999) -/
+  | diverges
+  deriving DecidableEq, Repr
 
 /-- what the model does not decide itself -/
 structure Env where
-  /-- the expression given to `inject` parses, validates and evaluates without error -/
-  evalOk : Str → Bool
+  /-- what the expression given to `inject` does when parsed, validated and evaluated -/
+  eval : Str → EvalOutcome
   /-- `is.vs.SetValue(path, v)` succeeds for a dotted container path (thread id, path) -/
   setPathOk : Nat → Str → Bool
 
@@ -343,27 +361,58 @@ def extractValue (tid : Nat) (varName dest : Str) : M Bool := do
           pure false
         else pure true
 
-def injectValue (env : Env) (tid : Nat) (varName expr : Str) : M Bool := do
+/-- parse + Validate + Eval of the expression; result: evaluated without error.
+    An evaluation that visits the debugger needs `ed.lock.RLock`: with the (write) lock held by
+    the very command that evaluates, that is a self-deadlock. -/
+def evalExpr (o : EvalOutcome) : M Bool := fun s =>
+  match o with
+  | .ok => .ok true s
+  | .error => .ok false s
+  | .visits r => if s.lock ≠ 0 then .deadlock s else .ok r s
+  | .diverges => .evaluating s
+
+/-- `is.vs.SetValue(varName, val)` for the suspended thread; result: err != nil -/
+def setInThread (env : Env) (tid : Nat) (varName : Str) (s : DbgState) (is : Interro) : M Bool := do
+  deref is.hasVs "InjectValue: is.vs.SetValue"
+  if varName.contains 46 then
+    pure (!env.setPathOk tid varName)
+  else if (visible s is).contains varName then pure false
+  else if is.atGlobal then do
+    modS fun s => { s with globals := varName :: s.globals }
+    pure false
+  else do
+    modS fun s => { s with istates := put tid { is with locals := varName :: is.locals } s.istates }
+    pure false
+
+def injectValue (g : Guards) (env : Env) (tid : Nat) (varName expr : Str) : M Bool := do
   let s0 ← getS
   if !s0.globalScope then pure true
+  else if g.injectOutside then do
+    -- look the thread up under the read lock, evaluate with no lock held, set under the write lock
+    let suspended ← locked do
+      let s ← getS
+      match s.istates.lookup tid with
+      | none => pure false
+      | some is => pure (!is.running)
+    if !suspended then pure true
+    else do
+      let ok ← evalExpr (env.eval expr)
+      if !ok then pure true
+      else locked do
+        let s ← getS
+        match s.istates.lookup tid with   -- the thread might have been continued in the meantime
+        | none => pure true
+        | some is => if is.running then pure true else setInThread env tid varName s is
   else locked do
+    -- before the repair: everything under `ed.lock.Lock(); defer ed.lock.Unlock()`
     let s ← getS
     match s.istates.lookup tid with
     | none => pure true
     | some is =>
       if is.running then pure true
-      else if !env.evalOk expr then pure true
       else do
-        deref is.hasVs "InjectValue: is.vs.SetValue"
-        if varName.contains 46 then
-          pure (!env.setPathOk tid varName)
-        else if (visible s is).contains varName then pure false
-        else if is.atGlobal then do
-          modS fun s => { s with globals := varName :: s.globals }
-          pure false
-        else do
-          modS fun s => { s with istates := put tid { is with locals := varName :: is.locals } s.istates }
-          pure false
+        let ok ← evalExpr (env.eval expr)
+        if !ok then pure true else setInThread env tid varName s is
 
 /-! ## debug_cmd.go -/
 
@@ -387,14 +436,24 @@ def Cmd.goType : Cmd → String
   | .extract => "extractCommand" | .inject => "injectCommand" | .lockstate => "lockstateCommand"
   | .rmbreak => "rmBreakpointCommand" | .status => "statusCommand"
 
-/-- the argument-count test at the head of `Run` (text of the Go condition; "" = none) -/
-def Cmd.argCheck : Cmd → String
-  | .break_ => "len(args) == 0" | .breakonstart => "" | .cont => "len(args) != 2"
-  | .describe => "len(args) != 1" | .disablebreak => "len(args) == 0" | .extract => "len(args) != 3"
-  | .inject => "len(args) < 3" | .lockstate => "" | .rmbreak => "len(args) == 0" | .status => ""
+/-- the argument-count test at the head of `Run`: is a call with `n` arguments turned away
+    with the usage error before anything else happens? -/
+def Cmd.rejects : Cmd → Nat → Bool
+  | .break_, n => n == 0 | .breakonstart, _ => false | .cont, n => n != 2
+  | .describe, n => n != 1 | .disablebreak, n => n == 0 | .extract, n => n != 3
+  | .inject, n => n < 3 | .lockstate, _ => false | .rmbreak, n => n == 0 | .status, _ => false
 
-/-- the vocabulary the model handles: (key, Go type, argument-count test), sorted by key -/
-def vocabulary : List (String × String × String) := Cmd.all.map fun c => (c.name, c.goType, c.argCheck)
+/-- `Cmd.rejects` for 0..5 arguments, as the extractor prints it -/
+def Cmd.rejectTable (c : Cmd) : String :=
+  String.ofList ((List.range 6).map fun n => if c.rejects n then 'T' else 'F')
+
+/-- does a regenerated table contradict the model's? (`?` = the extractor did not understand the
+    condition: not established, not a contradiction) -/
+def tableRefuted (gen model : String) : Bool :=
+  gen.length != model.length || (gen.toList.zip model.toList).any fun p => p.1 != '?' && p.1 != p.2
+
+/-- the vocabulary the model handles: (key, Go type), sorted by key -/
+def vocabulary : List (String × String) := Cmd.all.map fun c => (c.name, c.goType)
 
 /-- `DebugCommandsMap[name]` -/
 def lookupCmd (name : Str) : Option Cmd := Cmd.all.find? fun c => str c.name == name
@@ -490,7 +549,7 @@ def joinSp : List Str → Str
   | [x] => x
   | x :: rest => x ++ 32 :: joinSp rest
 
-def runInject (env : Env) (args : List Str) : M Out :=
+def runInject (g : Guards) (env : Env) (args : List Str) : M Out :=
   if args.length < 3 then pure err
   else do
     let a0 ← idx args 0 "inject: args[0]"
@@ -499,7 +558,7 @@ def runInject (env : Env) (args : List Str) : M Out :=
     | some tid => do
       let a1 ← idx args 1 "inject: args[1]"
       let rest ← sliceFrom args 2 "inject: args[2:]"
-      let e ← injectValue env tid a1 (joinSp rest)
+      let e ← injectValue g env tid a1 (joinSp rest)
       pure (.null, e)
 
 def Cmd.run (g : Guards) (env : Env) : Cmd → List Str → M Out
@@ -511,7 +570,7 @@ def Cmd.run (g : Guards) (env : Env) : Cmd → List Str → M Out
   | .describe, args => runDescribe g args
   | .status, _ => statusOf g
   | .extract, args => runExtract args
-  | .inject, args => runInject env args
+  | .inject, args => runInject g env args
   | .lockstate, _ => lockState g
 
 /-- ecalDebugger.HandleInput -/
@@ -536,6 +595,7 @@ def handleG (g : Guards) (env : Env) (s : DbgState) (line : Str) : DbgState × R
   | .ok o s' => (s', o.reply)
   | .panic site s' => (s', .panic site)
   | .deadlock s' => (s', .deadlock)
+  | .evaluating s' => (s', .evaluating)
 
 /-- the code as it is -/
 def handle (env : Env) (s : DbgState) (line : Str) : DbgState × Reply := handleG repaired env s line
@@ -667,5 +727,16 @@ def heldAfter : List LockEv → Nat → Nat
   | .runlock :: r, n => heldAfter r (n - 1)
   | .wunlock :: r, n => heldAfter r (n - 1)
   | _ :: r, n => heldAfter r n
+
+
+/-- VisitStepInState: `Lock(); defer Unlock()`; when the thread is interrogated with command
+    Stop the lock is given up around a nested VisitState (which may wait) and taken again -/
+def visitStepInEvents (deferred : Bool) (interrogatedStop : Bool) (i : VisitIn) : List LockEv :=
+  [.wlock] ++ (if interrogatedStop then [.wunlock] ++ visitEvents deferred i ++ [.wlock] else []) ++ [.wunlock]
+
+/-- VisitStepOutState: `Lock(); defer Unlock()`; on a new error with break-on-error the lock is
+    given up around the wait and taken again (`giveUp = false`: a variant that waits inside) -/
+def visitStepOutEvents (giveUp : Bool) (stopsOnError : Bool) : List LockEv :=
+  [.wlock] ++ (if stopsOnError then (if giveUp then [.wunlock, .wait, .wlock] else [.wait]) else []) ++ [.wunlock]
 
 end Ecal.DebugCmd
